@@ -48,7 +48,8 @@ try:
     meta['demo_patched_tail'] = (r.stdout + r.stderr)[-400:]
     if not a.skip_tests:
         junit = os.path.join(wt, 'SEED', 'junit.xml')
-        r = run(['/venv/bin/python', '-m', 'pytest', '-q', '-p', 'no:cacheprovider', '-n', a.jobs, '--timeout=900', '--junitxml=' + junit, 'tests'], cwd=wt)
+        # the baseline command (serial: tests/obs_test.py::test_merge_obs depends on the test order under xdist)
+        r = run(['/venv/bin/python', '-m', 'pytest', '-ra', '-q', '-p', 'no:cacheprovider', '--timeout=900', '--continue-on-collection-errors', '--junitxml=' + junit], cwd=wt)
         passed = set()
         for tc in ET.parse(junit).getroot().iter('testcase'):
             if not any(ch.tag in ('failure', 'error', 'skipped') for ch in tc):
